@@ -1,4 +1,5 @@
 """C01: the KV store behaves as an ordered map for every operation history."""
+import time
 from vlib import common as C
 from vlib.diff import Case, differential
 from checks import kvgen as G
@@ -170,10 +171,13 @@ def shrink(ctx, h, case):
     def mismatches(ops):
         ref = G.Ref()
         exp = [ref.apply(l) for l in ops]
-        rc, o, e = C.run_lines([h, C.scratch() + "/kv-shrink.db"], ops, timeout=60)
+        if time.time() > deadline[0]:
+            return []
+        rc, o, e = C.run_lines_stall([h, C.scratch() + "/kv-shrink.db"], ops, timeout=30, stall=5)
         if rc != 0 or len(o) < len(ops):
             return ["crash"]
         return [opsig(l) for l, x, y in zip(ops, exp, o) if x is not None and x != y]
+    deadline = [time.time() + 90]      # shrinking is a convenience: never let it dominate the run
     orig = mismatches(case.ops)
     want = orig[0] if orig else None
 
